@@ -336,8 +336,12 @@ def sliced_chains(depth):
 
 
 def sliced_requests(variant, tip):
+    '''(h, cp): a header proof; ('pos', height, pos): id_from_pos with proof; ('tx', height,
+    pos): get_merkle by hash.'''
     return {0: [(0, tip)], 1: [(tip - 1, tip - 1)], 2: [(0, tip), (tip, tip), (0, tip - 1)],
-            3: [(tip - 2, tip)]}[variant]
+            3: [(tip - 2, tip)],
+            4: [('pos', tip, 0), ('tx', tip, 1), ('pos', tip - 1, 1)],
+            5: [('tx', tip, 0), (0, tip), ('pos', tip, 1)]}[variant]
 
 
 def case_sliced(case, res):
@@ -377,9 +381,17 @@ def case_sliced(case, res):
                 if name(sj) == 'backup_block':
                     if points == case['k'] and not injected:
                         injected = True
-                        for h, cp in sliced_requests(case['variant'], tip0):
-                            rid = c.request('blockchain.block.header', [h, cp])
-                            reqs.append((rid, h, cp))
+                        for rq in sliced_requests(case['variant'], tip0):
+                            if rq[0] == 'pos':
+                                rid = c.request('blockchain.transaction.id_from_pos',
+                                                [rq[1], min(rq[2], len(base[rq[1]].txs) - 1), True])
+                            elif rq[0] == 'tx':
+                                pos = min(rq[2], len(base[rq[1]].txs) - 1)
+                                rid = c.request('blockchain.transaction.get_merkle',
+                                                [base[rq[1]].txs[pos].txid[::-1].hex(), rq[1]])
+                            else:
+                                rid = c.request('blockchain.block.header', list(rq))
+                            reqs.append((rid,) + tuple(rq))
                         # serve them to completion while the undo job stays where it is
                         while True:
                             if s.loop.step_ready():
@@ -410,17 +422,34 @@ def case_sliced(case, res):
             failures.append(('index-not-at-tip', dict(height=s.db.state.height)))
         else:
             s.settle()
-            for rid, h, cp in reqs:
+            for rid, h, cp, *more in reqs:
                 r = c.reply(rid)
                 res.count('in_flight_replies_judged')
                 if r is None:
-                    failures.append(('request-never-answered', dict(h=h, cp=cp)))
+                    failures.append(('request-never-answered', dict(request=[h, cp] + more)))
                 elif 'error' in r:
                     res.count('in_flight_refused')
+                elif h in ('pos', 'tx'):
+                    height, pos = cp, min(more[0], len(base[cp].txs) - 1)
+                    kind = 'id_from_pos' if h == 'pos' else 'get_merkle'
+                    want = base[height].txs[pos].txid
+                    ok = False
+                    for ch in (base, y):
+                        if height < len(ch):
+                            ids = [t.txid for t in ch[height].txs]
+                            p2 = pos if h == 'pos' else (ids.index(want) if want in ids else None)
+                            ok = ok or (p2 is not None and p2 < len(ids) and
+                                        check_tx_proof(r, ch[height], p2, kind) is None)
+                    if not ok:
+                        failures.append(('in-flight-proof-verifies-against-no-chain',
+                                         dict(request=[h, cp] + more)))
                 elif not any(cp < len(ch) and check_header_proof(r, ch, h, cp) is None
                              for ch in (base, y)):
                     failures.append(('in-flight-proof-verifies-against-no-chain',
                                      dict(h=h, cp=cp)))
+            if not failures:
+                full_proof_check(s, c, y, res, failures=failures,
+                                 heights=range(max(0, tip0 - case['depth'] - 1), len(y)))
             # afterwards every header proof must verify against the chain the server is on
             tip = len(y) - 1
             for cp in range(1, tip + 1):        # cp_height 0 means "no proof" in the protocol
@@ -471,7 +500,7 @@ def cases_for(tier):
         for i in range(n):
             cases.append(dict(scenario=scn, bound=1 if q else 2, shard=[i, n]))
     for depth in (1, 2) if q else (1, 2, 3):
-        for variant in range(4):
+        for variant in range(6):
             cases.append(dict(sliced=True, depth=depth, variant=variant))
     return cases
 
